@@ -104,6 +104,43 @@ func ruleLoad8(c *Ctx) {
 						}
 					}
 				}
+				// the slice handed to the loader starts at an index that descends from a signed parameter (a segment
+				// start computed by the caller as W − inputLen + 1): that index must be proved ≥ 0 here, a negative
+				// one panics in the slice expression before the loader is reached
+				if sl, isSl := arg.(*ssa.Slice); isSl && sl.Low != nil {
+					fromParam := false
+					seenV := map[ssa.Value]bool{}
+					var walk func(v ssa.Value, d int)
+					walk = func(v ssa.Value, d int) {
+						if d > 6 || seenV[v] {
+							return
+						}
+						seenV[v] = true
+						switch x := v.(type) {
+						case *ssa.Phi:
+							for _, e := range x.Edges {
+								walk(e, d+1)
+							}
+						case *ssa.BinOp:
+							if x.Op == token.ADD {
+								if k, isK := constInt(x.Y); isK && k >= 0 {
+									walk(x.X, d+1)
+								}
+							}
+						case *ssa.Parameter:
+							if bt, isB := x.Type().Underlying().(*types.Basic); isB && bt.Info()&types.IsInteger != 0 && bt.Info()&types.IsUnsigned == 0 {
+								fromParam = true
+							}
+						}
+					}
+					walk(sl.Low, 0)
+					if fromParam {
+						lowGoal := fi.lin(sl.Low).scale(-1)
+						okLow := fi.proveFlat(lowGoal, fi.condsAt(b), ex) || fi.proveAt(lowGoal, b, ex) || fi.proveByCases(lowGoal, b, ex)
+						c.check(okLow, key+":low", call.Pos(), fmt.Sprintf("the slice starts at %s ≥ 0", fi.lin(sl.Low)),
+							fmt.Sprintf("the slice handed to %s starts at %s, which descends from a signed parameter and is not proved ≥ 0 here: a segment start below 0 (a caller passes W − inputLen + 1 at the start of the stream) panics in the slice expression", call.Call.StaticCallee().Name(), fi.lin(sl.Low)))
+					}
+				}
 				okL := fi.proveFlat(goal, fi.condsAt(b), ex) || fi.proveAt(goal, b, ex) || fi.proveByCases(goal, b, ex)
 				c.check(okL, key, call.Pos(), fmt.Sprintf("%s needs %d bytes: len = %s ≥ %d", call.Call.StaticCallee().Name(), need, fi.lenOf(arg), need),
 					fmt.Sprintf("%s reads %d bytes but its argument (len = %s) is not proved to be that long at this call: an input that ends a few bytes after the compared position makes the load panic (index out of range)", call.Call.StaticCallee().Name(), need, fi.lenOf(arg)))
